@@ -11,10 +11,10 @@ var (
 	// a commit header, from its first character: [hash] author date subject (a log taken with a quoted format starts with "format:)
 	header            = `^(?:"format:)?\[([\da-f]{5,40})\]\s(.*?)\s(\d{4}-\d{2}-\d{2})(?:\s(.*))?$`
 	changes           = `^([\d-]+)[\t\s]+([\d-]+)[\t\s]+(.*)`
-	complexMoveRegStr = `(.*)\{(.*)\s=>\s(.*)\}(.*)`
+	complexMoveRegStr = `^((?:.*/)?)\{(.*)\s=>\s(.*?)\}((?:/.*)?)$`
 	basicMoveRegStr   = `(.*)\s=>\s(.*)`
 	// a --summary line: create/delete mode, mode change, rename, copy, rewrite
-	changeModel = `^\s(\w{1,7})\s(mode 100(\d){3})?\s?(.*)(\s\(\d{2}%\))?`
+	changeModel = `^\s(\w{1,7})\s(mode (\d){6})?\s?(.*)(\s\(\d{2}%\))?`
 
 	headerReg      = regexp.MustCompile(header)
 	changesReg     = regexp.MustCompile(changes)
